@@ -453,6 +453,17 @@ func (in *inst) stateChecks(l Letter) []mc.Fail {
 			}
 		}
 		held := in.r.VerifPending()
+		// every operation that was sent and has not been answered must still be held: an operation that silently
+		// drops out of the pending queue (e.g. discarded by a Flush) can never be answered when it becomes resolvable
+		heldNow := map[uint64]bool{}
+		for _, p := range held {
+			heldNow[p.ID] = true
+		}
+		for id, op := range in.sent {
+			if in.answered[id] == "" && !heldNow[id] {
+				bad("C02/unanswered-operation-no-longer-held", "after %s: operation %d (%s) was neither acknowledged nor failed and is not held any more: it can never be answered", l.Name, id, ribx.Text(op))
+			}
+		}
 		if in.o.NoFwdRefs && len(held) > 0 {
 			bad("C02/held-in-no-forward-reference-mode", "%d operations held although forward references are disallowed", len(held))
 		}
@@ -505,6 +516,18 @@ func (in *inst) stateChecks(l Letter) []mc.Fail {
 			refs := real.Referrers(e.NI, e.Kind, e.Key)
 			if (cnt > 0) != (refs > 0) {
 				bad(fmt.Sprintf("C03/protection-differs-from-referrers/%s/counter-%s-referrers-%s", e.Kind, pos(int(cnt)), pos(refs)), "after %s: %s %s@%s has %d installed referrers but deletion protection counter %d", l.Name, e.Kind, e.Key, e.NI, refs, cnt)
+			}
+		}
+		// ... and no counter may survive for a key that nothing references, installed or not: a stale counter of a
+		// key that is not installed (left behind by a Flush, say) refuses the DELETE of the key as soon as it is
+		// installed again
+		for ni, c := range rc {
+			for kind, m := range map[ribx.Kind]map[uint64]uint64{ribx.NH: c.NextHop, ribx.NHG: c.NextHopGroup} {
+				for id, cnt := range m {
+					if cnt > 0 && !real.Has(ni, kind, fmt.Sprint(id)) && real.Referrers(ni, kind, fmt.Sprint(id)) == 0 {
+						bad("C03/stale-protection-counter/"+kind.String(), "after %s: %s %d@%s is not installed and nothing references it, but its deletion protection counter is %d", l.Name, kind, id, ni, cnt)
+					}
+				}
 			}
 		}
 	}
